@@ -213,6 +213,11 @@ func reachDirect(handler *ssa.Function, name string) bool {
 	return false
 }
 
+// isOldNewEq: the atom compares the old and the new level of a pair (either operand order).
+func isOldNewEq(a string) bool {
+	return (strings.Contains(a, ".old == ") && strings.HasSuffix(a, ".new)")) || (strings.Contains(a, ".new == ") && strings.HasSuffix(a, ".old)"))
+}
+
 // checkPairRules: decision tables of the comparison loops.
 func checkPairRules(c *fw.Ctx, fam map[string]*ssa.Function) {
 	rule := "2 pair-rules"
@@ -226,7 +231,7 @@ func checkPairRules(c *fw.Ctx, fam map[string]*ssa.Function) {
 		}
 		hasPair := false
 		for _, a := range tbl.Atoms() {
-			if strings.Contains(a, ".old == ") && strings.HasSuffix(a, ".new)") {
+			if isOldNewEq(a) {
 				hasPair = true
 			}
 		}
@@ -250,7 +255,7 @@ func checkPairRules(c *fw.Ctx, fam map[string]*ssa.Function) {
 				return strings.Contains(atom, "< builtin.len(") || atom == "next(range(makemap))#0", true
 			case atom == "next(range(makemap))#0":
 				return true, true
-			case strings.Contains(atom, ".old == ") && strings.HasSuffix(atom, ".new)"):
+			case isOldNewEq(atom):
 				return a["on"] == "=", true
 			case strings.HasPrefix(atom, "("+senderSig+" < ") && strings.HasSuffix(atom, ".new)"):
 				return a["sn"] == "<", true
